@@ -876,11 +876,12 @@ def write_evidence(run, wall, violations, exhaustive=True):
         jsonschema.validate(ev, schema)
     except Exception as e:
         sys.stderr.write('evidence does not validate: %s\n' % str(e)[:500])
-    os.makedirs(os.path.join(VERIF, 'evidence'), exist_ok=True)
-    tmp = os.path.join(VERIF, 'evidence', ID + '.json.tmp')
+    edir = os.environ.get('VERIF_EVIDENCE_DIR', os.path.join(VERIF, 'evidence'))
+    os.makedirs(edir, exist_ok=True)
+    tmp = os.path.join(edir, ID + '.json.tmp')
     with open(tmp, 'w') as f:
         json.dump(ev, f, indent=1)
-    os.rename(tmp, os.path.join(VERIF, 'evidence', ID + '.json'))
+    os.rename(tmp, os.path.join(edir, ID + '.json'))
 
 
 def report(run, t0):
